@@ -725,6 +725,16 @@ class Exec:
                     out.append(q)
             return out
         if k == 'ret':
+            # `return c ? a : b;` is the same program as `if (c) return a; else return b;`: fork on the condition so each
+            # branch's calls belong to its own path
+            e0 = s.get('e')
+            e1 = e0
+            while isinstance(e1, dict) and e1.get('k') in ('icast', 'cast', 'paren', 'ewc', 'mte', 'bind') and e1.get('e') is not None:
+                e1 = e1['e']
+            if isinstance(e1, dict) and e1.get('k') == 'cond' and 'cv' not in e1 and ir.const_of(e1['c']) is None:
+                as_if = {'k': 'if', 'cond': e1['c'], 'then': {'k': 'ret', 'e': e1['a'], 'loc': s.get('loc')},
+                         'else': {'k': 'ret', 'e': e1['b'], 'loc': s.get('loc')}, 'loc': s.get('loc')}
+                return self.stmt(as_if, paths)
             for p in paths:
                 if s.get('e') is None:
                     p.ret = None
@@ -784,7 +794,15 @@ class Exec:
                         self.ev(s['inc'], q)
                 for q in after + frame['break']:
                     q.loop_depth -= 1
-                # after one iteration the loop is assumed to exit (no further constraint recorded)
+                # after one iteration the loop is assumed to exit; for a do-while the exit test is an ordinary condition of
+                # the paths that leave (the paths that would iterate again are dropped, like `continue` in an endless loop)
+                if k == 'do' and s.get('cond') is not None and ir.const_of(s['cond']) != 1:
+                    leaving = []
+                    for q in after:
+                        for q2, cv in self.eval_forking(s['cond'], q):
+                            t, f = self.branch(cv, q2)
+                            leaving += f
+                    after = leaving
                 infinite = s.get('cond') is None or ir.const_of(s['cond']) == 1
                 if infinite and k in ('for', 'while'):
                     out += frame['break']
